@@ -284,7 +284,9 @@ def _to_decimal(
         # Clamp input to valid range before scaling
         out_lo, out_hi = out_t.int_bounds
         # Scale bounds for pre-multiplication check
-        pre_lo = out_lo // divisor
+        # truncate toward zero (python `//` floors, which would admit one
+        # value below the lower bound)
+        pre_lo = -((-out_lo) // divisor)
         pre_hi = out_hi // divisor
         in_lo, in_hi = in_t.int_bounds
         val = _clamp_numeric_convert(val, (in_lo, in_hi), (pre_lo, pre_hi), in_t.is_signed, ctx)
